@@ -96,6 +96,11 @@ def hist_menu(seed):
     return lists, names
 
 
+def dochist_menu(seed):
+    a, b, _pa, _na = alphabet(seed)
+    return [["*"], [a + "*"], [b], [a, b + "*"]], [a, b, a + b]
+
+
 def doc_pool(seed):
     a, b, _pa, _na = alphabet(seed)
     return [["*"], [a + "*"], ["?"], ["*" + b, a], ["\\*"], [a + "\\"]]
@@ -183,6 +188,13 @@ def units(tier, seed):
         for init in range(len(lists)):
             out.append({"part": "hist-tree", "route": route, "lists": lists, "names": names, "init": init,
                         "depth": depth})
+    # histories on one Copyright object: lookups interleaved with edits of the Files lists and added paragraphs
+    dh_pool, dh_names = dochist_menu(seed)
+    for route in ("parse", "api"):
+        for i in range(len(dh_pool)):
+            for j in range(len(dh_pool)):
+                out.append({"part": "dochist", "route": route, "pool": dh_pool, "names": dh_names, "init": [i, j],
+                            "depth": 3 if tier == "quick" else 4})
     pool = doc_pool(seed)
     out.append(dict(base, part="doc", pool=pool, k=1, fixed=[]))
     for i in range(len(pool)):
@@ -207,6 +219,8 @@ def unit_cost(u, tier):
         return (9 ** u["depth"]) * 4
     if part == "hist-graph":
         return 1000
+    if part == "dochist":
+        return (15 ** u["depth"]) * 8
     return (6 ** (u["k"] - len(u["fixed"]))) * (2 ** (u["k"] + 1)) * 2 * (7 ** u["n"]) * 4
 
 
@@ -467,7 +481,90 @@ def run_unit(u, tier, seed):
         return _hist_graph(part, u)
     if kind == "hist-tree":
         return _hist_tree(part, u)
+    if kind == "dochist":
+        return _dochist(part, u)
     return _docs(part, u)
+
+
+# ------------------------------------------------------------------------------------------------ part 5
+
+def run_doc_history(case):
+    """lookups interleaved with edits on ONE Copyright object -> violations at the first wrong lookup"""
+    C = _copyright()
+    pool, names, route = case["pool"], case["names"], case["route"]
+    lists = [list(pool[i]) for i in case["init"]]
+    res = build_doc([("F", fl) for fl in lists], route)
+    j = judge_doc_build(lists, res)
+    if j:
+        return [j]
+    if res[0] != "ok":
+        return []
+    doc, paras = res[1], res[2]
+    for op in case["history"]:
+        if op[0] == "set":
+            if op[1] >= len(paras):
+                return []
+            r = set_files(paras[op[1]], pool[op[2]])
+            if r is not None:
+                return [("files/set-fails", "files := %r accepted" % (pool[op[2]],), _show(r))]
+            lists[op[1]] = list(pool[op[2]])
+        elif op[0] == "add":
+            try:
+                fp = C.FilesParagraph.create(list(pool[op[1]]), "c", C.License("l"))
+                doc.add_files_paragraph(fp)
+            except Exception as e:
+                return [("doc/add-files-paragraph-raises", "paragraph added", repr(_exc(C, e)))]
+            paras = list(doc.all_files_paragraphs())
+            lists.append(list(pool[op[1]]))
+            if len(paras) != len(lists) or paras[-1] is not fp:
+                return [("doc/add-files-paragraph/order", "new Files paragraph is the last Files paragraph", len(paras))]
+        else:
+            name = names[op[1]]
+            got = observe_find(doc, paras, name)
+            jj = judge_find(lists, name, got, paras)
+            if jj:
+                fresh = build_doc([("F", fl) for fl in lists], route)
+                if fresh[0] == "ok" and judge_find(lists, name, observe_find(fresh[1], fresh[2], name), fresh[2]) is None:
+                    return [("find/stale-after-history", jj[1] + " after %r" % (case["history"],), jj[2])]
+                return [jj]
+    return []
+
+
+def _dochist(part, u):
+    pool, names, depth = u["pool"], u["names"], u["depth"]
+    ops = [("find", i) for i in range(len(names))]
+    ops += [("set", k, i) for k in (0, 1) for i in range(len(pool))]
+    ops += [("add", i) for i in range(len(pool))]
+    part.max_depth = depth
+
+    def rec(hist, nadd):
+        for op in ops:
+            if op[0] == "add" and nadd >= 1:
+                continue
+            h2 = hist + [op]
+            if len(h2) == depth and op[0] != "find":
+                continue                 # a history is observed by its last lookup
+            case = {"part": "dochist", "route": u["route"], "pool": pool, "names": names, "init": u["init"],
+                    "history": [list(o) for o in h2]}
+            bad = run_doc_history(case)
+            part.transitions += 1
+            part.evaluations += 1
+            for sig, e, o in bad:
+                part.violation(sig, case, e, o, rank=len(h2))
+            if bad:
+                continue
+            part.states += 1
+            if len(h2) < depth:
+                rec(h2, nadd + (op[0] == "add"))
+            else:
+                part.traces += 1
+                if any(o[0] != "find" for o in h2):
+                    part.nontrivial += 1
+                part.outcomes["dochist:" + "".join(o[0][0] for o in h2)] += 1
+    rec([], 0)
+    part.sample({"part": "dochist", "route": u["route"], "pool": pool, "names": names, "init": u["init"],
+                 "history": [["find", 0], ["set", 1, 3], ["find", 0]]})
+    return part
 
 
 # ------------------------------------------------------------------------------------------------ part 3
@@ -805,6 +902,8 @@ def replay(case):
         return run_history(case)[0]
     if part == "doc":
         return run_doc_case(case)
+    if part == "dochist":
+        return run_doc_history(case)
     raise ValueError("unknown case %r" % (case,))
 
 
